@@ -122,6 +122,15 @@ def run(env):
     for c, o in zip(b, env.harness(b)):
         if not isinstance(o, list):
             env.violation("malachite rnd() %s" % o, {"kind": "battery", "case": c, "out": o}, key="F4-rnd-M"); break
+    # full range under OS entropy on small sets with q of 8 and 10 bits: 600 / 3000 draws from a uniform sampler miss
+    # fewer than 1% / 6% of the values (thresholds far below: coverage >= 84% resp. 80%, no chance failure in practice)
+    for ctx, ndraw, need in (("B:263", 600, 110), ("B:2039", 3000, 820), ("M:263", 600, 110)):
+        P_, q_, g_ = pq(ctx)
+        dr = env.harness([{"ctx": ctx, "op": "fresh_rnd_exp", "args": [str(ndraw)], "tag": "range-coverage"}])[0]
+        vals = {int(x) for x in dr} if isinstance(dr, list) else set()
+        if len(vals) < need or any(not (0 <= v < q_) for v in vals):
+            env.violation("random exponents do not span [0, q) on %s: %d draws hit only %d of %d values (max %s)" % (ctx, ndraw, len(vals), q_, max(vals) if vals else None),
+                          {"kind": "battery", "case": {"ctx": ctx, "op": "fresh_rnd_exp", "args": [str(ndraw)]}, "distinct": len(vals)})
     # freshness with OS entropy
     L = 2 ** 252 + 27742317777372353535851937790883648493
     for ctx in ("B:2048", "M:2048", "R"):
